@@ -868,8 +868,9 @@ func restoreServiceVirtualIP(header *SnapshotHeader, restore *state.Restore, dec
 	// We attempt to reconcile the older type by decoding to a map then decoding that map into
 	// structs.PeeredServiceName first, and then structs.ServiceName.
 	var req struct {
-		Service map[string]interface{}
-		IP      net.IP
+		Service   map[string]interface{}
+		IP        net.IP
+		ManualIPs []string
 
 		structs.RaftIndex
 	}
@@ -879,6 +880,7 @@ func restoreServiceVirtualIP(header *SnapshotHeader, restore *state.Restore, dec
 
 	vip := state.ServiceVirtualIP{
 		IP:        req.IP,
+		ManualIPs: req.ManualIPs,
 		RaftIndex: req.RaftIndex,
 	}
 
